@@ -6,7 +6,7 @@ BASE_ASSUMPTIONS = [
     "machine arithmetic treated as mathematical: doubles are read as reals; rounding is not covered by the deductive part",
     "CPython 3.12 + numpy execute object-dtype arrays with the same structural semantics (indexing, broadcasting, "
     "views, tensordot, einsum, concatenate, reductions) as float64 arrays",
-    "shape families are finite (enumerated angular momenta / primitive counts / orders); nothing is claimed outside them",
+    "shape families are finite (enumerated angular momenta / primitive counts / orders); nothing is claimed outside them - except by the contracts of contracts.unbounded where this file lists them, which remove the bound on the angular momenta / orders / components for the functions they name",
     "trusted calculus: Gaussian moment formula, Gaussian product rule (re-checked), differentiation under the integral sign",
     "the verifier itself (engine/alg.py normal form, engine/sym.py proxy, runner)",
 ] + SUBSTITUTIONS
@@ -220,6 +220,22 @@ for _p in ("C02", "C08", "C16"):
     CHECKS[_p].assumptions.append("contracts.unbounded (any extent): engine/generic.py's reading of numpy basic indexing, right-aligned broadcasting and "
                                   "in-order slice assignment; range(lo, hi) iterates in order; integration by parts for the derivative relation "
                                   "(tied to the closed-form specification by the per-shape contract up to extent 5)")
+for _p in ("C04", "C11"):
+    CHECKS[_p].harnesses.append("contracts.unbounded:ERIBlockAnyL")
+    CHECKS[_p].assumptions.append("contracts.unbounded:ERIBlockAnyL / PointChargeBlockAnyL: the shells are stub subclass instances of "
+                                  "GeneralizedContractionShell with a symbolic angular momentum (read-only interface as given by the harness; the real "
+                                  "class is under contract per shape); numbers of segments, component rows and points are those of the harness shapes")
+for _p in ("C03", "C11", "C14"):
+    CHECKS[_p].harnesses.append("contracts.unbounded:PointChargeBlockAnyL")
+for _p in ("C01", "C07", "C16"):
+    CHECKS[_p].harnesses.append("contracts.unbounded:MomentWrapperAnyL")
+for _p in ("C02", "C08", "C16"):
+    CHECKS[_p].harnesses.append("contracts.unbounded:DiffWrapperAnyL")
+for _p in ("C01", "C02", "C07", "C08", "C16"):
+    CHECKS[_p].harnesses.append("contracts.unbounded:CleanupAnyL")
+    CHECKS[_p].assumptions.append("contracts.unbounded (selection of orders / components from the recursion table, product over the axes, contraction: any "
+                                  "extents, any rows): np.max / np.min of an array of symbolic integers replaced by their contracts (upper / lower bound "
+                                  "of every entry); one generic row per array stands for all rows (rows only index; several rows are covered per shape)")
 for _p in ("C03", "C14"):
     CHECKS[_p].harnesses.append("contracts.unbounded:OneElecKernelAnyL")
     CHECKS[_p].assumptions.append("contracts.unbounded (the WHOLE one-electron kernel, any l_a, l_b): engine/generic.py's reading of numpy basic indexing / "
